@@ -372,15 +372,7 @@ func runWorklist(c *core.Ctx) {
 		}
 		c.Check(okB, key+":bounded", li.loop.Pos(), "growth of %s is bounded by the visited set %q (%s): %v %s — a circular reference among manifests would otherwise keep the loop running forever", li.w, visited, map[bool]string{true: "mark on pop", false: "mark on push"}[patternB != ""], okB, msg)
 		// (iii) collector only
-		deletes := false
-		ast.Inspect(li.fd.Body, func(n ast.Node) bool {
-			if call, ok := n.(*ast.CallExpr); ok {
-				if se, ok := call.Fun.(*ast.SelectorExpr); ok && se.Sel.Name == "blobDelete" {
-					deletes = true
-				}
-			}
-			return true
-		})
+		deletes := isMarkLoop(c, pk, li)
 		if deletes {
 			// every map that can keep a manifest from being expanded — `if M[k] { continue }` anywhere in the
 			// body, or `if !M[k] { … append(W, …) }` — must be a pure visited set of manifests
@@ -501,6 +493,24 @@ func visitWithMarks(stmts []ast.Stmt, guards, outerMarks map[string]string, apps
 	}
 }
 
+// isMarkLoop: the collector's mark loop is the worklist loop that expands image manifests — its body
+// declares a value of the image manifest struct type (to decode config and layers into).
+func isMarkLoop(c *core.Ctx, pk *packages.Package, li loopInfo) bool {
+	if li.kind != "worklist" {
+		return false
+	}
+	found := false
+	ast.Inspect(li.loop.Body, func(n ast.Node) bool {
+		if cl, ok := n.(*ast.CompositeLit); ok {
+			if tv, ok := pk.TypesInfo.Types[cl]; ok && isNamedType(tv.Type, c.P.Module+"/types", "Manifest") {
+				found = true
+			}
+		}
+		return true
+	})
+	return found
+}
+
 // ---- SH-MARK-EXHAUSTIVE ----
 
 func runMarkExhaustive(c *core.Ctx) {
@@ -515,23 +525,13 @@ func runMarkExhaustive(c *core.Ctx) {
 		if li.kind != "worklist" {
 			continue
 		}
-		deletes := false
-		ast.Inspect(li.fd.Body, func(n ast.Node) bool {
-			if call, ok := n.(*ast.CallExpr); ok {
-				if se, ok := call.Fun.(*ast.SelectorExpr); ok && se.Sel.Name == "blobDelete" {
-					deletes = true
-				}
-			}
-			return true
-		})
-		// a split collector: the mark loop may live in a function that the deleting function calls
-		if deletes || strings.Contains(strings.ToLower(li.fd.Name.Name), "mark") {
+		if isMarkLoop(c, pk, li) {
 			l := li
 			mark = &l
 		}
 	}
 	if mark == nil {
-		c.Unresolved("mark-loop", "no worklist loop found in the collector")
+		c.Unresolved("mark-loop", "no worklist loop that expands image manifests found in the store package")
 		return
 	}
 	tp := c.P.Pkg("types").Types
@@ -676,23 +676,23 @@ func runSweepGuard(c *core.Ctx) {
 	keepOK := false
 	var keepMap ssa.Value
 	for _, g := range an.GuardingEdges(del.Block()) {
-		base, neg := an.CondBase(an.BlockIf(g.From).Cond)
+		base, neg := an.CondBase(g.If().Cond)
 		lk, ok := base.(*ssa.Lookup)
 		if !ok || an.Origin(lk.Index) != dkey {
 			continue
 		}
 		isTrue := (g.Succ == 0) != neg
 		if !isTrue && inLoop(g.From) {
-			// the map must be one that the mark phase writes (a keep-set), not the index membership map
-			written := 0
+			// the map must come from the mark phase: not one the sweep loop itself fills in
+			writtenInLoop := false
 			if lk.X.Referrers() != nil {
 				for _, ref := range *lk.X.Referrers() {
-					if mu, ok := ref.(*ssa.MapUpdate); ok && !an.BlockReaches(h, mu.Block()) {
-						written++
+					if mu, ok := ref.(*ssa.MapUpdate); ok && (mu.Block() == h || an.BlockReaches(h, mu.Block())) && an.BlockReaches(mu.Block(), h) {
+						writtenInLoop = true
 					}
 				}
 			}
-			if written > 0 {
+			if !writtenInLoop {
 				keepOK = true
 				keepMap = lk.X
 			}
@@ -729,7 +729,7 @@ func runSweepGuard(c *core.Ctx) {
 	an.Calls(fn, func(call ssa.CallInstruction) {
 		if an.IsMethod(call, r.TypesPath, "Index", "RmDesc") {
 			for _, g := range an.GuardingEdges(call.Block()) {
-				base, neg := an.CondBase(an.BlockIf(g.From).Cond)
+				base, neg := an.CondBase(g.If().Cond)
 				if _, ok := base.(*ssa.Lookup); ok && ((g.Succ == 0) == neg) && !an.BlockReaches(call.Block(), del.Block()) {
 					pruneOK = true
 				}
@@ -886,7 +886,7 @@ func runConvertMark(c *core.Ctx) {
 				}
 				where = fn
 				for _, g := range an.GuardingEdges(cc.Block()) {
-					x, nilSucc, isNil := an.NilTest(an.BlockIf(g.From))
+					x, nilSucc, isNil := an.NilTest(g.If())
 					if !isNil || g.Succ != nilSucc {
 						continue
 					}
